@@ -346,6 +346,114 @@ type script struct {
 	dflt   oc
 	direct bool
 	batch  bool
+	src    *idemSrc // how the query / batch is marked; generated from idem and batch when nil
+}
+
+// idemSrc: the inputs of IsIdempotent as the application writes them
+type idemSrc struct {
+	batch          bool
+	entries        []gocql.VerifC13Entry
+	sessionBatch   bool
+	clusterDefault bool
+	override       *bool
+}
+
+// spec side: a batch is idempotent when every entry is marked so, a query when its override (else the
+// cluster default) says so
+func (s *idemSrc) spec() bool {
+	if s.batch {
+		for _, e := range s.entries {
+			if !(e.Set && e.Idempotent) {
+				return false
+			}
+		}
+		return true
+	}
+	if s.override != nil {
+		return *s.override
+	}
+	return s.clusterDefault
+}
+
+func (s *idemSrc) term() string {
+	if s.batch {
+		fs := make([]string, len(s.entries))
+		for i, e := range s.entries {
+			fs[i] = hlib.Bool(e.Set && e.Idempotent)
+		}
+		return "(IBatch " + hlib.List(fs) + ")"
+	}
+	ov := "None"
+	if s.override != nil {
+		ov = hlib.Some(hlib.Bool(*s.override))
+	}
+	return fmt.Sprintf("(IQuery %s %s)", hlib.Bool(s.clusterDefault), ov)
+}
+
+func (s *idemSrc) shim() *gocql.VerifC13Idem {
+	return &gocql.VerifC13Idem{Entries: s.entries, SessionBatch: s.sessionBatch, ClusterDefault: s.clusterDefault, Override: s.override}
+}
+
+// realise picks a way of marking the query / batch that gives the intended idempotence: batches of 0..5
+// entries made with Query or Bind with the non-idempotent entries at any position, queries through the
+// cluster default with or without an override
+func (h *harness) realise(sc *script, forceQuery bool, haveDefault bool, sessDefault bool) {
+	if sc.src != nil {
+		sc.idem = sc.src.spec()
+		return
+	}
+	r := h.o.Rng
+	src := &idemSrc{batch: sc.batch && !forceQuery}
+	if src.batch {
+		n := 1 + r.Intn(5)
+		if sc.idem && r.Chance(10) {
+			n = 0
+		}
+		src.sessionBatch = r.Bool()
+		src.clusterDefault = r.Bool()
+		src.entries = make([]gocql.VerifC13Entry, n)
+		for i := range src.entries {
+			src.entries[i] = gocql.VerifC13Entry{Bind: r.Chance(30), Set: true, Idempotent: true}
+		}
+		if !sc.idem {
+			// at least one entry is not idempotent: a single one at any position (often not the last), or several
+			k := r.Intn(n)
+			if n > 1 && r.Chance(60) {
+				k = r.Intn(n - 1)
+			}
+			mark := func(i int) {
+				src.entries[i].Idempotent = false
+				if r.Chance(40) {
+					src.entries[i].Set = false // left at the default
+				}
+			}
+			mark(k)
+			if r.Chance(25) {
+				for i := range src.entries {
+					if r.Chance(40) {
+						mark(i)
+					}
+				}
+			}
+		}
+	} else {
+		src.clusterDefault = r.Bool()
+		if haveDefault {
+			src.clusterDefault = sessDefault
+		}
+		if src.clusterDefault != sc.idem || r.Chance(40) {
+			v := sc.idem
+			src.override = &v
+		}
+	}
+	sc.src = src
+}
+
+func srcTerm(sc *script) string {
+	if sc.src == nil {
+		return ""
+	}
+	return sc.src.term()
 }
 
 func hostUsable(h gocql.VerifC13Host) bool { return !h.InfoNil && !h.Down && !h.NoPool && !h.NoConn }
@@ -371,7 +479,7 @@ func outsTerm(cs []oc) string {
 }
 
 func (sc *script) describe() map[string]interface{} {
-	return map[string]interface{}{"hosts": hostsTerm(sc.hosts), "policy": sc.pol.term(), "idempotent": sc.idem, "speculative_attempts": sc.spk,
+	return map[string]interface{}{"hosts": hostsTerm(sc.hosts), "policy": sc.pol.term(), "idempotent": sc.idem, "marking": srcTerm(sc), "speculative_attempts": sc.spk,
 		"initial_attempts": sc.a0, "consistency": sc.cons0, "outcomes": outsTerm(sc.outs), "default_outcome": ocTerm(sc.dflt), "direct": sc.direct, "batch": sc.batch}
 }
 
@@ -1102,6 +1210,7 @@ func (h *harness) checkLevels(idx int, sc *script, tr []ev) {
 
 func (h *harness) runSeq(sc *script, kind string) {
 	o := h.o
+	h.realise(sc, false, false, false)
 	rc := newRunCtx(sc, 0)
 	var sp gocql.SpeculativeExecutionPolicy
 	if sc.spk != 0 || o.Rng.Chance(50) {
@@ -1112,7 +1221,7 @@ func (h *harness) runSeq(sc *script, kind string) {
 	var pan interface{}
 	func() {
 		defer func() { pan = recover() }()
-		res = gocql.VerifC13Run(rc.shimScript(nil, sp))
+		res = gocql.VerifC13Run2(rc.shimScript(nil, sp), sc.src.shim())
 	}()
 	h.evalSeq(sc, rc, res, pan, caller, kind)
 }
@@ -1128,7 +1237,7 @@ func (h *harness) evalSeq(sc *script, rc *runCtx, res gocql.VerifC13Result, pan 
 	}
 	view := rc.classify(res)
 	nontrivial := countExec(tr) >= 2 || (countExec(tr) == 1 && len(tr) > 4)
-	term := fmt.Sprintf("CSeq %s %s %s %s %s %s %s %s %s %s %s %s %s", hlib.Bool(sc.direct), hostsTerm(sc.hosts), sc.pol.term(), hlib.Bool(sc.idem),
+	term := fmt.Sprintf("CSeq %s %s %s %s %s %s %s %s %s %s %s %s %s", hlib.Bool(sc.direct), hostsTerm(sc.hosts), sc.pol.term(), sc.src.term(),
 		hlib.Z(int64(sc.spk)), hlib.Z(int64(sc.a0)), hlib.Z(sc.cons0), outsTerm(sc.outs), ocTerm(sc.dflt), traceTerm(tr), view.resultTerm(),
 		hlib.Z(int64(res.Attempts)), hlib.Z(int64(res.Consistency)))
 	idx := o.Case(kind, nontrivial, term)
@@ -1221,6 +1330,7 @@ func execHosts(tr []ev) []int {
 // free-running speculative execution: timers and sleeps, monitors only
 func (h *harness) runFree(sc *script, cancelAfter time.Duration) {
 	o := h.o
+	h.realise(sc, false, false, false)
 	rc := newRunCtx(sc, 1)
 	rc.sleeps = make([]time.Duration, 24)
 	for i := range rc.sleeps {
@@ -1238,7 +1348,7 @@ func (h *harness) runFree(sc *script, cancelAfter time.Duration) {
 	var pan interface{}
 	func() {
 		defer func() { pan = recover() }()
-		res = gocql.VerifC13Run(rc.shimScript(ctx, sp))
+		res = gocql.VerifC13Run2(rc.shimScript(ctx, sp), sc.src.shim())
 	}()
 	// snapshot at return: the winner's log is complete by now
 	rc.mu.Lock()
@@ -1341,6 +1451,7 @@ func (h *harness) runFree(sc *script, cancelAfter time.Duration) {
 type launchFn func(ctx context.Context, rc *runCtx, sp gocql.SpeculativeExecutionPolicy) gocql.VerifC13Result
 
 func (h *harness) runControlled(sc *script, sched []int, ticks bool, cancelAt int, kind string) {
+	h.realise(sc, false, false, false)
 	h.runControlledWith(sc, sched, ticks, cancelAt, kind, nil)
 }
 
@@ -1368,7 +1479,7 @@ func (h *harness) runControlledWith(sc *script, sched []int, ticks bool, cancelA
 		if launch != nil {
 			res = launch(ctx, rc, sp)
 		} else {
-			res = gocql.VerifC13Run(rc.shimScript(ctx, sp))
+			res = gocql.VerifC13Run2(rc.shimScript(ctx, sp), sc.src.shim())
 		}
 	}()
 	stuck := false
@@ -1506,7 +1617,7 @@ func (h *harness) runControlledWith(sc *script, sched []int, ticks bool, cancelA
 		total += countExec(tr)
 	}
 	att := res.AttemptsNow()
-	term := fmt.Sprintf("CSpec %s %s %s %s %s %s %s %s %s %s", hostsTerm(sc.hosts), sc.pol.term(), hlib.Z(int64(sc.spk)), hlib.Z(int64(sc.a0)), hlib.Z(sc.cons0),
+	term := fmt.Sprintf("CSpec %s %s %s %s %s %s %s %s %s %s %s", hostsTerm(sc.hosts), sc.pol.term(), sc.src.term(), hlib.Z(int64(sc.spk)), hlib.Z(int64(sc.a0)), hlib.Z(sc.cons0),
 		scheduleTerm(ls1), ret, scheduleTerm(ls2), hlib.List(runs), hlib.Z(int64(att)))
 	idx := o.Case(kind, total >= 2, term)
 	// monitors
@@ -1622,6 +1733,42 @@ func main() {
 			}
 		}
 	}
+	// 2b. systematic idempotence gate: the non-idempotent entry at every position of batches of 1..5 entries
+	//     (made with Query / Bind, flag assigned or left at its default), queries under both cluster defaults
+	//     with and without an override; a speculative policy is installed, no retry policy, first attempt succeeds
+	for size := 1; size <= 5; size++ {
+		for pos := 0; pos <= size; pos++ { // pos == size: every entry idempotent
+			for variant := 0; variant < 2; variant++ {
+				src := &idemSrc{batch: true, sessionBatch: variant == 1, clusterDefault: variant == 1}
+				for i := 0; i < size; i++ {
+					e := gocql.VerifC13Entry{Bind: (i+variant)%3 == 0, Set: true, Idempotent: i != pos}
+					if i == pos && variant == 1 {
+						e.Set = false
+					}
+					src.entries = append(src.entries, e)
+				}
+				sc := &script{hosts: g.hosts(4, 0), cons0: 4, batch: true, src: src, dflt: oc{nil, true}, spk: int(r.Pick(1, 3))}
+				if pos == size {
+					sc.spk = 0
+				}
+				h.runSeq(sc, "seq-idempotence-gate")
+			}
+		}
+	}
+	for _, d := range []bool{false, true} {
+		for ov := 0; ov < 3; ov++ {
+			src := &idemSrc{clusterDefault: d}
+			if ov > 0 {
+				v := ov == 2
+				src.override = &v
+			}
+			sc := &script{hosts: g.hosts(4, 0), cons0: 4, src: src, dflt: oc{nil, true}, spk: 2}
+			if src.spec() {
+				sc.spk = 0
+			}
+			h.runSeq(sc, "seq-idempotence-gate")
+		}
+	}
 	// 3. structured random sequential executions (through executeQuery: non-idempotent with any
 	//    speculative policy, or idempotent without speculation; and do called directly)
 	for i := 0; i < 3*n; i++ {
@@ -1723,7 +1870,7 @@ func main() {
 	// 7. end to end through the public API: a real Session over scripted in-memory nodes
 	{
 		t0 := time.Now()
-		e, err := newE2E(h, 20*time.Second)
+		e, err := newE2E(h, 20*time.Second, o.Seed%2 == 0)
 		if err != nil {
 			o.Violate(-1, "e2e-setup", "", fmt.Sprintf("session over scripted nodes could not be opened: %v", err), nil)
 		} else {
